@@ -153,6 +153,19 @@ pub mod ext_vec {
         ensures forall|p: spec_fn(T) -> bool| (forall|x: T| (call_ensures(f, (&x,), true) ==> #[trigger] p(x)) && (call_ensures(f, (&x,), false) ==> !p(x)))
                     ==> final(v)@ == #[trigger] old(v)@.filter(p);
 
+    /// removing consecutive repeats (what `Vec::dedup` does for an `==` that is equality): the first of each run stays
+    pub open spec fn dedup_adjacent<T>(s: Seq<T>) -> Seq<T>
+        decreases s.len(),
+    {
+        if s.len() <= 1 { s }
+        else if s[s.len() - 2] == s[s.len() - 1] { dedup_adjacent(s.drop_last()) }
+        else { dedup_adjacent(s.drop_last()).push(s[s.len() - 1]) }
+    }
+    /// ASSUMED (std documentation of `Vec::dedup`): "Removes consecutive repeated elements"; stated for element types whose
+    /// `==` is equality (calloop uses it, if at all, on token types with derived PartialEq)
+    pub assume_specification<T: PartialEq, A: std::alloc::Allocator> [Vec::<T, A>::dedup] (v: &mut Vec<T, A>)
+        ensures final(v)@ == dedup_adjacent(old(v)@);
+
     /// Rule R20 (see DESIGN 2.1): `v.drain(..)` as the iterator expression of a `for` head becomes a Vec holding the drained
     /// elements in order; the drained vector is left empty (ASSUMED: that is what a full-range drain consumed to its end does)
     #[verifier::external_body]
